@@ -9,6 +9,10 @@ ASSUMPTIONS = [
     "tolerances set explicitly (Rectangle.set_epsilon) and passed to the model as parameters; the sliver ratio is the exact value of the float 0.01",
     "cells are generated from guillotine partitions with dyadic coordinates and ratios, so binary64 arithmetic is exact; centres (one division) are compared within 8 roundings",
     "refine(levels=0) raises by design (assert levels > 0) and is outside 'all level counts'",
+    "decimal coordinates (cell sides 0.1, 0.3, 0.7, 1.1 ..., not representable in binary64) go to the direct oracle only, with a tolerance of "
+    "1e-9 of the layout size; this includes the LARGE results (1000-1100, 2048, 4100 cells from refine / uniform / griddify of a "
+    "decimal layout; quick tier: two of about 1025 cells, one of them by refine), where the constructor's all-pairs overlap check costs "
+    "3 s (1026 cells) to 60 s (4100 cells) per call",
 ]
 
 
@@ -24,9 +28,13 @@ def oracle_decimal(case, obs):
         if after is None:
             return f"{o[0]} failed ({st.get('err')}) on a valid allocation with decimal coordinates"
         after = after["cells"]
+        ab = [ac.cbox(c) for c in after]
+        fb = [tuple(map(float, b)) for b in ab]      # float pre-filter (results of 1000+ cells): cannot miss an overlap > tol * size
         for p in before:
             pb = ac.cbox(p)
-            kids = [c for c in after if ac.ovl(pb, ac.cbox(c)) > tol * size]
+            pf = tuple(map(float, pb))
+            kids = [c for c, b, f in zip(after, ab, fb) if f[0] < pf[2] and pf[0] < f[2] and f[1] < pf[3] and pf[1] < f[3]
+                    and ac.ovl(pb, b) > tol * size]
             for c in kids:
                 b = ac.cbox(c)
                 if not (b[0] >= pb[0] - tol and b[1] >= pb[1] - tol and b[2] <= pb[2] + tol and b[3] <= pb[3] + tol):
@@ -164,14 +172,31 @@ def gen_cases(rng, n, quick, extreme=False):
         n_ext, n_exth = (len(ac.EXTREME) * 2, len(ac.EXTREME)) if quick else (len(ac.EXTREME) * 28, len(ac.EXTREME) * 8)
         ext = [ac.gen_extreme_case(rng, i) for i in range(n_ext)] + [ac.gen_extreme_hist(rng, i) for i in range(n_exth)]
         n = max(n - len(ext), 0)
+    # large decimal results (size threshold x coordinates that are not representable): oracle only, each costs the
+    # constructor's quadratic overlap check (~7 s at 1026 cells, ~30 s at 2048, ~2 min at 4100)
+    if quick:
+        k = rng.randrange(3)
+        picks = [av.BIGDEC_QUICK[k]] + ([] if extreme else [av.BIGDEC_QUICK[(k + 1 + rng.randrange(2)) % 3]])
+        if not any(op == "refine" for _, op in picks):
+            picks[-1] = av.BIGDEC_QUICK[0]
+        bigdec = [av.gen_big_decimal(rng, t, op, follow=False) for t, op in picks]
+    else:
+        opsq = ["refine", "uniform", "griddify"]
+        tg = [1001, 1026, 1100, 2048] if extreme else av.BIGDEC_TARGETS      # C12 shares the stream, C02 carries the class
+        bigdec = [av.gen_big_decimal(rng, t, opsq[(i + rng.randrange(3)) % 3] if t < 4000 else "refine",
+                                     exact=t < 2000 and i % 5 == 4) for i, t in enumerate(tg)]
+    n = max(n - len(bigdec) * (1 if quick else 40), 0)      # thorough: a large case costs about as much as 40 ordinary ones
     n_hist = (n * 9) // 20
     n_tmpl = min(n_hist // 3, 3 * len(ac.QKINDS) * len(ac.TKINDS))
     n_big = 8 if quick else 60
     n_sliver = 16 if quick else 160
+    n_sliver3 = 32 if quick else 320
     cases = [av.vary(rng, ac.gen_hist_template(rng, i)) for i in range(n_tmpl)]
     cases += [av.vary(rng, av.gen_big(rng, quick)) for _ in range(n_big)]
     cases += [av.vary(rng, av.gen_sliver2(rng)) for _ in range(n_sliver)]
-    cases += [av.vary(rng, ac.gen_hist_case(rng)) for _ in range(n_hist - n_tmpl - n_big - n_sliver)]
+    s3 = rng.randrange(10 ** 4)
+    cases += [av.vary(rng, av.gen_sliver3(rng, s3 + i)) for i in range(n_sliver3)]
+    cases += [av.vary(rng, ac.gen_hist_case(rng)) for _ in range(n_hist - n_tmpl - n_big - n_sliver - n_sliver3)]
     chains = [ac.gen_case(rng) for _ in range(n - n_hist)]
     if extreme:
         cases = [ac.extremize(rng, c) if rng.random() < 0.3 else c for c in cases]
@@ -186,7 +211,7 @@ def gen_cases(rng, n, quick, extreme=False):
         upto = int(round((i + 1) * step))
         out += chains[taken:upto]
         taken = upto
-    return out + chains[taken:]
+    return bigdec + out + chains[taken:]
 
 
 def run(ctx, out, replay=None):
@@ -198,8 +223,12 @@ def run(ctx, out, replay=None):
                 "max_refinement_depth / num_rectangles / area+center) on ANY allocation built so far, interleaved with "
                 "rect.fixed = b set in place on a cell (also through a derived allocation sharing the Rectangle object), the "
                 "same object called again with other arguments; a systematic block enumerates first-call x later-call "
-                "kinds with the flag set in between on a cell the later call would cut; non-trivial = at least two cells; "
-                "distinct by hash")
+                "kinds with the flag set in between on a cell the later call would cut; (c) size x decimal coordinates (oracle "
+                "only): grids of cells of side 0.1 / 0.3 / 0.7 / 1.1 / 0.07 ... on which ONE refine(t, 1..10 levels) / "
+                "uniform_refinement_depth / griddify returns 1000, 1001, 1002 ... 1100, 2048, 4100 cells (thorough; some "
+                "followed by a second operation on the large result, some from exactly representable sides; quick: two results "
+                "of 1024-1026 cells); (d) layouts where the 1% rule of griddify answers differently for a cell and for the pieces "
+                "the perpendicular cuts leave (see C12); non-trivial = at least two cells; distinct by hash")
     cases = []
     if replay and "case" in replay:
         cases.append(fr.unjson(replay["case"]))
